@@ -2204,12 +2204,14 @@ class SquareLowRankUpdateMatrix(InvertibleMatrix, ImplicitArrayMatrix):
                 self.right_factor_matrix,
                 self.square_matrix,
                 self.inner_square_matrix,
+                self._sign,
             ),
         )
 
     def _check_equality(self, other: SquareLowRankUpdateMatrix) -> bool:
         return (
-            self.left_factor_matrix == other.left_factor_matrix
+            self._sign == other._sign  # noqa: SLF001
+            and self.left_factor_matrix == other.left_factor_matrix
             and self.right_factor_matrix == other.right_factor_matrix
             and self.square_matrix == other.square_matrix
             and self.inner_square_matrix == other.inner_square_matrix
@@ -2336,11 +2338,19 @@ class SymmetricLowRankUpdateMatrix(
         return self
 
     def _compute_hash(self) -> int:
-        return hash((self.factor_matrix, self.square_matrix, self.inner_square_matrix))
+        return hash(
+            (
+                self.factor_matrix,
+                self.square_matrix,
+                self.inner_square_matrix,
+                self._sign,
+            ),
+        )
 
     def _check_equality(self, other: SymmetricLowRankUpdateMatrix) -> bool:
         return (
-            self.factor_matrix == other.factor_matrix
+            self._sign == other._sign  # noqa: SLF001
+            and self.factor_matrix == other.factor_matrix
             and self.symmetric_matrix == other.symmetric_matrix
             and self.inner_symmetric_matrix == other.inner_symmetric_matrix
         )
